@@ -15,6 +15,7 @@ import (
 
 	"verif/internal/core"
 	"verif/internal/explore"
+	"verif/internal/fo"
 	"verif/internal/impl"
 )
 
@@ -117,6 +118,56 @@ func c05Programs(thorough bool) []c05Prog {
 
 const c05MaxDecisions = 3000
 
+func c05RealPrograms(sc *impl.Scratch, thorough bool) []c05Prog {
+	var out []c05Prog
+	if b, err := os.ReadFile(filepath.Join(sc.Src, "samples", "filelist.txt")); err == nil {
+		for _, ln := range strings.Split(string(b), "\n") {
+			f := strings.Fields(ln)
+			if len(f) == 0 {
+				continue
+			}
+			if src, err := os.ReadFile(filepath.Join(sc.Src, "samples", f[0])); err == nil {
+				out = append(out, c05Prog{name: "sample:" + f[0], files: map[string]string{f[0]: string(src)}, args: []string{"@foi", f[0]}, free: 3})
+			}
+		}
+	}
+	for _, k := range fo.Corpus() {
+		out = append(out, c05Prog{name: "corpus:" + k.Name, files: map[string]string{"t.fo": fo.Prelude + k.Source(nil)}, args: []string{"@foi", "t.fo"}, free: 3})
+	}
+	{
+		var sb strings.Builder
+		sb.WriteString("package main\n\n")
+		for _, d := range c07Pool(thorough) {
+			sb.WriteString(d.src + "\n")
+		}
+		out = append(out, c05Prog{name: "c07-pool", files: map[string]string{"t.fo": sb.String()}, args: []string{"t.fo"}, free: 3})
+	}
+	if thorough {
+		if rec, err := c04Recipe(filepath.Join(sc.Src, "fc", "fc_all.sh")); err == nil {
+			files := map[string]string{}
+			var args []string
+			ok := true
+			for _, a := range rec {
+				if strings.HasSuffix(a, ".foi") {
+					args = append(args, "@foi")
+					continue
+				}
+				b, err := os.ReadFile(filepath.Join(sc.Src, "fc", a))
+				if err != nil {
+					ok = false
+					break
+				}
+				files[a] = string(b)
+				args = append(args, a)
+			}
+			if ok {
+				out = append(out, c05Prog{name: "fc-self-compile", files: files, args: args, free: 3})
+			}
+		}
+	}
+	return out
+}
+
 type c05Obs struct {
 	exit  int
 	files string // canonical: name=sha256 ...
@@ -178,6 +229,13 @@ func checkC05(c *core.Ctx) {
 	fam := c05DecompositionFamily(c.Thorough())
 	c.Set("decomposition_family_programs", len(fam))
 	progs = append(progs, fam...)
+	// realistic programs: the repository's samples (with pkg_all.foi), the boundary corpus of C01 / C06 (with
+	// the prelude: records with shared field names, generic records, unions, a type-and group), the definition
+	// pool of C07 as one file; thorough: fc's own sources with the fc_all.sh recipe (1 113 enumerations, 9 425
+	// single-deviation schedules of 2 s each - run last, under the deadline, reported as capped if cut)
+	real := c05RealPrograms(sc, c.Thorough())
+	c.Set("realistic_programs", len(real))
+	progs = append(progs, real...)
 	var wg sync.WaitGroup
 	sem := make(chan struct{}, c.Workers)
 	sitesSeen := map[string]int{}
